@@ -147,4 +147,76 @@ theorem rebuild_none (pre post : List String) (body : List (String × Bool)) :
     rebuild pre (subBlocks body) post noRepl = pre ++ body.map (·.1) ++ post := by
   simp [rebuild, subBlocks, rebuild_head]
 
+/-- replace exactly the sub-block with index `k` -/
+def oneRepl (k : Nat) (R : List String) : Nat → Option (List String) := fun i => if i = k then some R else none
+
+/-- the rebuilt body depends on the replacement function only at the indices it visits -/
+theorem rebuildBody_congr : ∀ (segs : List (List String)) (shared : List String) (f g : Nat → Option (List String)) (i : Nat),
+    (∀ j, i ≤ j → f j = g j) → rebuildBody segs shared f i = rebuildBody segs shared g i
+  | [], _, _, _, _, _ => by simp [rebuildBody]
+  | [sg], shared, f, g, i, h => by cases shared <;> simp [rebuildBody, h i (Nat.le_refl _)]
+  | sg :: t :: rest, [], f, g, i, h => by
+    simp [rebuildBody, h i (Nat.le_refl _), rebuildBody_congr (t :: rest) [] f g (i + 1) (fun j hj => h j (by omega))]
+  | sg :: t :: rest, sp :: sps, f, g, i, h => by
+    simp [rebuildBody, h i (Nat.le_refl _), rebuildBody_congr (t :: rest) sps f g (i + 1) (fun j hj => h j (by omega))]
+
+/-- **replacing one sub-block changes only that segment** (body level): the rebuilt body is the unchanged body
+    with the `k`-th segment exchanged for `R`, the text before and after it not depending on `R` -/
+theorem rebuildBody_one : ∀ (segs : List (List String)) (shared : List String) (i k : Nat) (_hk : i ≤ k)
+    (hlt : k - i < segs.length),
+    ∃ p s, (∀ R, rebuildBody segs shared (oneRepl k R) i = p ++ R ++ s) ∧
+      rebuildBody segs shared noRepl i = p ++ segs[k - i] ++ s
+  | [], _, _, _, _, hlt => by simp at hlt
+  | [sg], shared, i, k, _, hlt => by
+    have hki : k = i := by simp at hlt; omega
+    subst hki
+    refine ⟨[], [], ?_, ?_⟩
+    · intro R; cases shared <;> simp [rebuildBody, oneRepl]
+    · cases shared <;> simp [rebuildBody, noRepl]
+  | sg :: t :: rest, shared, i, k, hk, hlt => by
+    by_cases hki : k = i
+    · subst hki
+      cases shared with
+      | nil =>
+        refine ⟨[], rebuildBody (t :: rest) [] noRepl (k + 1), ?_, ?_⟩
+        · intro R
+          have hrest : rebuildBody (t :: rest) [] (oneRepl k R) (k + 1) = rebuildBody (t :: rest) [] noRepl (k + 1) :=
+            rebuildBody_congr _ _ _ _ _ (by intro j hj; simp [oneRepl, noRepl]; omega)
+          simp [rebuildBody, oneRepl, hrest]
+        · simp [rebuildBody, noRepl]
+      | cons sp sps =>
+        refine ⟨[], sp :: rebuildBody (t :: rest) sps noRepl (k + 1), ?_, ?_⟩
+        · intro R
+          have hrest : rebuildBody (t :: rest) sps (oneRepl k R) (k + 1) = rebuildBody (t :: rest) sps noRepl (k + 1) :=
+            rebuildBody_congr _ _ _ _ _ (by intro j hj; simp [oneRepl, noRepl]; omega)
+          simp [rebuildBody, oneRepl, hrest]
+        · simp [rebuildBody, noRepl]
+    · have hk' : i + 1 ≤ k := by omega
+      have hlt' : k - (i + 1) < (t :: rest).length := by simp at hlt ⊢; omega
+      have hidx : (sg :: t :: rest)[k - i]'hlt = (t :: rest)[k - (i + 1)]'hlt' := by
+        have : k - i = (k - (i + 1)) + 1 := by omega
+        simp [this]
+      cases shared with
+      | nil =>
+        obtain ⟨p, s, h1, h2⟩ := rebuildBody_one (t :: rest) [] (i + 1) k hk' hlt'
+        refine ⟨sg ++ p, s, ?_, ?_⟩
+        · intro R; simp [rebuildBody, oneRepl, h1 R, Ne.symm hki]
+        · simp [rebuildBody, noRepl, h2, hidx]
+      | cons sp sps =>
+        obtain ⟨p, s, h1, h2⟩ := rebuildBody_one (t :: rest) sps (i + 1) k hk' hlt'
+        refine ⟨sg ++ sp :: p, s, ?_, ?_⟩
+        · intro R; simp [rebuildBody, oneRepl, h1 R, Ne.symm hki]
+        · simp [rebuildBody, noRepl, h2, hidx]
+
+/-- **C14, last clause**: replacing sub-block `k` by `R` changes only that segment — the rebuilt block is the block
+    rebuilt with nothing replaced (which is the original block, `rebuild_none`) with the instructions of segment `k`
+    exchanged for `R`; what precedes and follows does not depend on `R`. -/
+theorem rebuild_one (pre post : List String) (subs : List (List String)) (k : Nat) (hk : k < (stripShared subs).length) :
+    ∃ p s, (∀ R, rebuild pre subs post (oneRepl k R) = pre ++ (p ++ R ++ s) ++ post) ∧
+      rebuild pre subs post noRepl = pre ++ (p ++ (stripShared subs)[k] ++ s) ++ post := by
+  obtain ⟨p, s, h1, h2⟩ := rebuildBody_one (stripShared subs) (sharedOf subs) 0 k (Nat.zero_le _) (by simpa using hk)
+  refine ⟨p, s, ?_, ?_⟩
+  · intro R; simp only [rebuild, h1 R]
+  · simp only [rebuild, h2, Nat.sub_zero]
+
 end GasolVerif.Asm
